@@ -1114,7 +1114,9 @@ CHECK = Check(
         "layer async-iter: AsyncTCPNetworkClient.iter_received_packets(timeout) on the virtual loop, 1-4 packets in 1-3 pieces at "
         "generated times x consumer delays between __anext__ calls (not deducted) - non-trivial = finite budget, >= 2 packets waited "
         "for and a consumer delay; layer tls: blocking SSLStreamTransport.recv/recv_into, one TLS record whose ciphertext arrives in "
-        "1-5 pieces at generated times - non-trivial = finite timeout and >= 3 pieces"
+        "1-5 pieces at generated times - non-trivial = finite timeout and >= 3 pieces (mode endpoint-poll: recv_packet(timeout=0) on a packet of "
+        "1-4 TLS records that have all arrived); layer iter-errors: blocking and asynchronous iter_received_packets(timeout) over streams with "
+        "malformed frames whose parse errors the consumer catches before going on with the same iterator - non-trivial = a malformed frame was waited for"
     ),
     layers=[
         Layer("recv", st_recv_case, run_recv_case, {"quick": 1500, "thorough": 8000}),
